@@ -1,7 +1,12 @@
 package props
 
 import (
+	"context"
+	"fmt"
+	"sync/atomic"
 	"time"
+
+	bigbuff "github.com/joeycumines/go-bigbuff"
 
 	"verif/core"
 )
@@ -29,6 +34,7 @@ func init() {
 		Families: []core.Family{
 			{Name: "long-chain", N: core.TierN(120, 6000), Batch: 4, Run: c01Long},
 			{Name: "short-porcupine", N: core.TierN(1500, 80000), Batch: 50, Run: c01Short},
+			{Name: "put-cancelled-midway", N: core.TierN(60, 2400), Batch: 10, Run: c01PutCancelled},
 		},
 	})
 }
@@ -101,4 +107,114 @@ func c01Short(c *core.Ctx) {
 	if c.Index < 2 && !c.Violated() {
 		c.SetHistory(describeHistory(ops, bufferModel(cs).DescribeOperation, 40))
 	}
+}
+
+// c01PutCancelled: the context of a Put is cancelled while the Put is waiting for the buffer lock. Whatever the Put
+// then returns, the consumers' streams consist of exactly the values of the Puts that returned nil.
+func c01PutCancelled(c *core.Ctx) {
+	cooldown := core.Pick(c.Rng, 0, 0, 200*time.Microsecond)
+	var gateP atomic.Pointer[core.Gate]
+	var armed atomic.Bool
+	b := newBuffer(cleanerSpec{}, cooldown, func(inner bigbuff.Cleaner) bigbuff.Cleaner {
+		return func(size int, offsets []int) int {
+			if armed.CompareAndSwap(true, false) {
+				gateP.Load().Enter(3000) // one cleaner evaluation is held open (falls through after the bound)
+			}
+			return inner(size, append([]int(nil), offsets...))
+		}
+	})
+	defer b.Close()
+	ref, err := b.NewConsumer()
+	if err != nil {
+		c.Violate("newconsumer-error", "%v", err)
+		return
+	}
+	defer ref.Rollback()
+	rounds := 3 + c.Rng.IntN(6)
+	var accepted, rejected []int
+	windows := 0
+	next := 0
+	for r := 0; r < rounds; r++ {
+		// an ordinary Put first (it also wakes the cleanup goroutine, whose next evaluation is held open)
+		gate := core.NewGate()
+		gateP.Store(gate)
+		armed.Store(true)
+		if err := b.Put(context.Background(), next); err != nil {
+			c.Violate("put-error", "Put(%d) with a live context failed: %v", next, err)
+			return
+		}
+		accepted = append(accepted, next)
+		next++
+		window := gate.WaitArrived(3000)
+		// the Put under test: batch of 1-3, its context cancelled while it is queued (or just before / after)
+		k := 1 + c.Rng.IntN(3)
+		vals := make([]interface{}, k)
+		ids := make([]int, k)
+		for i := range vals {
+			ids[i] = next
+			vals[i] = next
+			next++
+		}
+		ctx, cancel := context.WithCancel(context.Background())
+		var perr error
+		done := core.Go(func() { perr = b.Put(ctx, vals...) })
+		time.Sleep(time.Duration(50+c.Rng.IntN(250)) * time.Microsecond)
+		cancel()
+		if c.Rng.IntN(2) == 0 {
+			time.Sleep(time.Duration(c.Rng.IntN(100)) * time.Microsecond)
+		}
+		armed.Store(false)
+		gate.Release()
+		if !core.AwaitDone(done, 10000) {
+			c.Violate("put-blocked", "a Put whose context was cancelled while it was queued never returned")
+			c.SetDump(core.DumpAll())
+			return
+		}
+		if perr == nil {
+			accepted = append(accepted, ids...)
+		} else {
+			rejected = append(rejected, ids...)
+		}
+		if window {
+			windows++
+		}
+	}
+	// the reference consumer reads everything that is there
+	var got []int
+	for {
+		d, ok := b.Diff(ref)
+		if !ok || d <= 0 {
+			break
+		}
+		v, err := ref.Get(context.Background())
+		if err != nil {
+			c.Violate("get-error", "reference consumer: %v", err)
+			return
+		}
+		n, _ := v.(int)
+		got = append(got, n)
+		ref.Commit()
+	}
+	desc := fmt.Sprintf("Puts that returned nil: %v; Puts that returned an error: %v; stream: %v", accepted, rejected, got)
+	if fmt.Sprint(got) != fmt.Sprint(accepted) {
+		key := "stream-differs"
+		for _, v := range got {
+			for _, x := range rejected {
+				if v == x {
+					key = "invented-value"
+				}
+			}
+		}
+		c.Violate(key, "the consumer's stream is not exactly the values of the successful Puts in order (a Put that reports an error must have stored nothing); %s", desc)
+	}
+	c.Op("put", 2*rounds)
+	c.Op("get", len(got))
+	c.Count("puts_rejected", len(rejected))
+	if windows > 0 {
+		c.Nontrivial()
+		c.R.WinHit++
+	} else {
+		c.R.WinMissed++
+	}
+	c.Sig("put-cancelled", rounds, len(rejected) > 0, windows > 0)
 }
